@@ -67,7 +67,7 @@ def check_noisy(L, text, M, case, pair_index=None, env=None):
     if sim["errors"] and sim_stop["errors"] != sim["errors"][:1]:
         M.inconc("simulator inconsistent between modes on %s" % short(text, 120))
         return sim
-    o = env.parse(text, M) if env is not None else observe.parse_observed(text, False)
+    o = env.parse(text, M) if env is not None else observe.parse_observed(text, False, as_scanner=(M.cases % 4 == 0))
     M.count("sim_compared")
     M.hist("errors_per_document", len(sim["errors"]))
     for e in sim["errors"]:
